@@ -328,6 +328,12 @@ pub fn run(opts: &HashMap<String, String>) -> i32 {
                     run_traced(rid + 2, &input, &w);
                     run_measured(&input, &w, usize::MAX);
                     runs += 1;
+                    // and the streaming API with sections left before all of their entries were read
+                    let mut k = base.clone();
+                    k.parser = format!("{}_skip", parser);
+                    k.seed = s;
+                    run_traced(rid + 3, &input, &k);
+                    runs += 1;
                 }
                 run_measured(&input, &base, usize::MAX);
             }
